@@ -6,7 +6,7 @@ ENTRY = dict(
         prop_file="Properties/C03.v",
         corr_files=["Corr/C03Corr.v"],
         theorems=["c03_qubits", "c03_registers", "c03_instructions", "c03_instructions_kept", "c03_instructions_inserted",
-                  "c03_semantics", "c03_markers_transparent", "c03_move_targets_fresh", "c03_expand", "c03_expand_letters",
+                  "c03_semantics", "c03_cut_wires_as_moves", "c03_unwrap", "c03_semantics_cut_wires", "c03_markers_transparent", "c03_move_targets_fresh", "c03_expand", "c03_expand_letters",
                   "c03_facts"],
         allowed_axioms=[],
         facts=["value_error_sites"],
